@@ -272,6 +272,7 @@ pub async fn drive(sim: &Sim, case: &SoutCase, oracle: &mut dyn Oracle) -> RunSu
             let leftovers: Vec<(String, u8, UpdateOp)> = lockq.lock().unwrap().pending.drain(..).collect();
             for (_, _, u) in leftovers {
                 let info = node.handle.transaction(|d| u.apply(d));
+                sim.log(|| format!("user transaction (queued for a lock point that did not come): {:?} -> {:?}", u, info));
                 lockq.lock().unwrap().timeline.push(TL::Update {
                     op: u,
                     info,
